@@ -148,7 +148,7 @@ func genAOps(rc *RunCtx, c ACfg) []Op {
 		case 2: // upstream failure mode change
 			add(Op{Kind: "upmode", A: int64(r.Intn(8)), B: int64(r.Pick(upOK, upOK, upRefuse, upBlackhole, upReset, up500, upMalformed, upInconsistent, upEmptyBody))})
 		case 3: // /config from some source address
-			add(Op{Kind: "config", A: int64(r.Intn(8)), B: int64(r.Intn(3))})
+			add(Op{Kind: "config", A: int64(r.Intn(8)), B: int64(r.Intn(3)), C: int64(r.Pick(0, 0, 1, 2, 3, 4))})
 		}
 	}
 	return ops
@@ -708,10 +708,32 @@ func (w *aWorld) opMutate(op Op) {
 			allHealthy = false
 		}
 	}
+	kind := int(op.B % 10)
 	if !allHealthy {
+		// lookupd-level actions (create, tombstone) go to every lookupd: a
+		// failing one must not keep the request from the healthy ones
+		if w.cfg.NLookupd > 0 && (kind <= 1 || kind == 8) {
+			posted := map[string]bool{}
+			for _, q := range reqs {
+				if q.method == "POST" {
+					posted[q.path] = true
+				}
+			}
+			for _, l := range w.lookupds() {
+				if l.mode != upOK {
+					continue
+				}
+				for _, p := range w.expectedFanout(kind, t, ch, node) {
+					if strings.HasPrefix(p, fmt.Sprintf("lookupd%d/", l.idx)) && !posted[p] {
+						w.violate("C17", "action-skipped-healthy-lookupd", "%s %s: healthy lookupd %d did not receive POST %s while another upstream was failing (POSTs seen: %v)", method, path, l.idx, p, keysOf(posted))
+						return
+					}
+				}
+				rc.Probe("partial_fanout_checked")
+			}
+		}
 		return
 	}
-	kind := int(op.B % 10)
 	if w.cfg.NLookupd == 0 && (kind <= 1 || kind == 8) {
 		// creating topics/channels and tombstoning are nsqlookupd operations:
 		// with directly configured nsqds there is no relevant upstream
@@ -846,7 +868,26 @@ func (w *aWorld) opConfig(op Op) {
 			path = "/config/log_level"
 		}
 	}
-	resp := httpDo(rc, method, w.http, path, body, nil, src, 30*time.Second)
+	// the gate is about the peer address of the connection: a client-supplied
+	// forwarding header naming an address inside the CIDR must not open it
+	var hdr map[string]string
+	if w.cfg.CIDR != "" && op.C%5 != 0 {
+		_, ipn, _ := net.ParseCIDR(w.cfg.CIDR)
+		in := append(net.IP(nil), ipn.IP...)
+		in[len(in)-1] |= 1
+		switch op.C % 5 {
+		case 1:
+			hdr = map[string]string{"X-Forwarded-For": in.String()}
+		case 2:
+			hdr = map[string]string{"X-Forwarded-For": in.String() + ", 203.0.113.7"}
+		case 3:
+			hdr = map[string]string{"X-Real-Ip": in.String()}
+		case 4:
+			hdr = map[string]string{"Forwarded": "for=" + in.String()}
+		}
+		rc.Probe("config_with_forwarding_header")
+	}
+	resp := httpDo(rc, method, w.http, path, body, hdr, src, 30*time.Second)
 	rc.Probe("config_checked")
 	if resp.Err != nil {
 		w.violate("C17", "no-response", "%s %s: %v", method, path, resp.Err)
